@@ -246,6 +246,10 @@ fn closure<C: OrdColl>(cfg: &Cfg, rep: &mut Report, u: i32, hint: usize, set_ind
     let mon = if emit.is_some() { OMon::default() } else { judge };
     let max_states = cfg.num("max_states", 300_000) as usize;
     let held_depth = cfg.num("held_depth", 2);
+    // fault mode (C18): the probe sequences are not judged here; they are handed to the fault
+    // enumerator together with the path to the state
+    let fault_mode = cfg.flag("fault");
+    let mon = if fault_mode { OMon::default() } else { mon };
     let uni = (0, 2 * u);
     let keys: Vec<i32> = (0..u).map(|i| 2 * i + 1).collect();
     let base_live = cb::ledger_live();
@@ -279,8 +283,18 @@ fn closure<C: OrdColl>(cfg: &Cfg, rep: &mut Report, u: i32, hint: usize, set_ind
                         return true;
                     }
                 }
+                if fault_mode && emit.is_none() {
+                    // C18: every sequence applied at this state, with every callback of it panicking once
+                    let path = path_of(&nodes, idx);
+                    let ctor = format!("hint={} uni={}..{}", hint, uni.0, uni.1);
+                    for sq in seqs.iter() {
+                        let mut ops = path.clone();
+                        ops.extend_from_slice(sq);
+                        crate::fault::fault_history_from::<OrdExec<C>>(&ctor, &ops, rep, hist, None, path.len());
+                    }
+                }
                 for (si, sq) in seqs.iter().enumerate() {
-                    if si < first_transition && emit.is_some() {
+                    if si < first_transition && (emit.is_some() || fault_mode) {
                         continue;
                     }
                     ctx::set(hist, si as u64);
